@@ -611,30 +611,58 @@ func materialise(verif string, hs []load.Harness, pkgDir string, cases []replayC
 }
 
 func nativeReplay(verif string, hs []load.Harness, pkgDir string, cases []replayCase, dir string) (map[string][]replayEvent, error) {
-	cmd, err := materialise(verif, hs, pkgDir, cases, dir)
-	if err != nil {
-		return nil, err
-	}
-	c := exec.Command("sh", "-c", cmd)
-	var out bytes.Buffer
-	c.Stdout, c.Stderr = &out, &out
-	runErr := c.Run()
-	os.WriteFile(filepath.Join(dir, "output.txt"), out.Bytes(), 0o644)
 	ev := map[string][]replayEvent{}
-	seen := false
-	for _, l := range strings.Split(out.String(), "\n") {
-		if !strings.HasPrefix(l, "ZZ|") {
-			continue
+	var allOut bytes.Buffer
+	remaining := cases
+	// A failed assertion inside a goroutine of the code under test ends the test binary: the
+	// cases after it have produced nothing. They are run again in a fresh process (bounded).
+	for round := 0; round < 8 && len(remaining) > 0; round++ {
+		cmd, err := materialise(verif, hs, pkgDir, remaining, dir)
+		if err != nil {
+			return nil, err
 		}
-		seen = true
-		parts := strings.SplitN(l, "|", 4)
-		if len(parts) < 4 {
-			continue
+		c := exec.Command("sh", "-c", cmd)
+		var out bytes.Buffer
+		c.Stdout, c.Stderr = &out, &out
+		runErr := c.Run()
+		allOut.Write(out.Bytes())
+		seen := false
+		for _, l := range strings.Split(out.String(), "\n") {
+			if !strings.HasPrefix(l, "ZZ|") {
+				continue
+			}
+			seen = true
+			parts := strings.SplitN(l, "|", 4)
+			if len(parts) < 4 {
+				continue
+			}
+			ev[parts[1]] = append(ev[parts[1]], replayEvent{parts[2], parts[3]})
 		}
-		ev[parts[1]] = append(ev[parts[1]], replayEvent{parts[2], parts[3]})
+		if !seen && runErr != nil {
+			os.WriteFile(filepath.Join(dir, "output.txt"), allOut.Bytes(), 0o644)
+			if round == 0 {
+				return nil, fmt.Errorf("go test failed: %v: %s", runErr, trimOut(out.String()))
+			}
+			break
+		}
+		if runErr == nil {
+			break
+		}
+		var next []replayCase
+		for _, rc := range remaining {
+			if len(ev[rc.ID]) == 0 {
+				next = append(next, rc)
+			}
+		}
+		if len(next) == len(remaining) {
+			break
+		}
+		remaining = next
 	}
-	if !seen && runErr != nil {
-		return nil, fmt.Errorf("go test failed: %v: %s", runErr, trimOut(out.String()))
+	os.WriteFile(filepath.Join(dir, "output.txt"), allOut.Bytes(), 0o644)
+	// leave the full case list behind for `gosym replay`
+	if len(remaining) != len(cases) {
+		materialise(verif, hs, pkgDir, cases, dir)
 	}
 	return ev, nil
 }
